@@ -46,6 +46,8 @@ def _models(tier: str = "thorough"):
         ("an empty tuple (protocol 2, nothing memoised)", b"\x80\x02)."),
         ("a dict with a non-ASCII key 'd\u00e9codeur.weight' (protocol 2)", pickle.dumps({"d\u00e9codeur.weight": [1.5], "\u5c42": 2}, 2)),
         ("a dict with a 300-character key (protocol 2)", pickle.dumps({"k" * 300: 1, "short": ("x" * 70000)[:3]}, 2)),
+        ("a container saved with pickle_protocol=1 (no PROTO opcode)", pickle.dumps({"weights": [1.5, 2.5], "odict": collections.OrderedDict(a=1)}, 1)),
+        ("400 long entries saved with pickle_protocol=4 (larger than one frame: two FRAME opcodes)", pickle.dumps({f"layer{i}.weight": (f"{i:04d}" + "v" * 180, i) for i in range(400)}, 4)),
     ]
 
 
@@ -395,6 +397,11 @@ def explore(repo: Repo, tier: str):
     for mi, (ml, model) in enumerate(_models()):
         if mi == 0:
             seqs = _sequences(3 if tier == "thorough" else 2) + ([] if tier == "thorough" else TARGETED)
+        elif len(model) > 20000:
+            # a big model: the single injections only (its point is the frame bookkeeping, not the call sequences)
+            items.append((ml, model, 0, False, (("inject", "w1", False),)))
+            items.append((ml, model, 0, False, (("inject", "w1", True), ("inject", "w1", False))))
+            continue
         else:
             seqs = _sequences(2 if tier == "thorough" else 1) + ([] if tier == "thorough" else [TARGETED[1], TARGETED[-1]])
         for ops in seqs:
